@@ -12,7 +12,7 @@ RULE = ("Generated: state type in {positive, complex}, num_visible 1..5 x num_hi
         "(type,n,nh) of the box with generated parameters. Oracle: brute-force hidden-unit marginal (explicit sum over "
         "2^nh hidden configurations). Non-trivial = every bias vector of every network has a non-zero entry AND some "
         "|parameter| >= 0.5; distinct = SHA-1 of the canonical JSON of the case.")
-RULE_EXT = ('Extended as built: n up to 10 (1/16 of cases), structured parameter families (equal / alternating / extreme entries), complex states built from a user module half the time; every evaluation is repeated after read-only operations, after evaluating a second object, and along the in-place history A -> B -> (biases of A, weights of B) -> A; sample batches as rank-3, float32, int64 and uint8 tensors; aliases compute_normalization and importance_sampling_numerator/denominator/weight are compared with the same reference.')
+RULE_EXT = ('Extended as built: n up to 10 (1/16 of cases), structured parameter families (equal / alternating / extreme entries), complex states built from a user module half the time; every evaluation is repeated after read-only operations, after evaluating a second object, and along the in-place history A -> B -> (biases of A, weights of B) -> A; sample batches as rank-3, float32, int64 and uint8 tensors; aliases compute_normalization and importance_sampling_numerator/denominator/weight are compared with the same reference. Rounds 5-6: replacement amplitude network (other hidden size) through the rbm_am setter; sparse histories (one entry point, one evaluation per parameter set); ownership of results (held results unchanged by later calls, no shared memory, in-place edits of a result do not leak).')
 RULE = RULE + " " + RULE_EXT
 ASSUMPTIONS = ["CPU only", "parameters rescaled by construction so that |log weight| <= 300 (double-precision exp range)",
                "rtol 1e-7 against the enumeration oracle (softplus threshold e^-20 per hidden unit), 1e-9 between library outputs"]
@@ -165,6 +165,9 @@ def interleave_readonly(case, state):
         other.normalization(space); other.psi(space); other.probability(space); other.sample(1, num_samples=2)
 
 
+_OWNED = set()
+
+
 def check_round(case, state):
     n = case["n"]
     am, ph = gen.ref_nets(case)
@@ -273,6 +276,25 @@ def check_round(case, state):
         require(o.dim() == 0, f"callform:1d-{name}-shape", f"{name} of a 1-D state has shape {tuple(o.shape)}, expected scalar")
         require(abs(float(o) - float(ref[k])) <= 1e-12 * abs(float(ref[k])) + 1e-300, f"callform:1d-{name}",
                 f"{name}(v) for a 1-D v differs from the batched value")
+    # results belong to the caller: every returned tensor is edited in place (as a caller normalising or shifting a result would) and each
+    # entry point is asked again, for the whole space, a sub-batch and the 1-D form; earlier results must also survive later calls
+    if id(state) in _OWNED:          # once per state object (the first round); later rounds re-verify values only
+        return {}
+    _OWNED.clear()
+    _OWNED.add(id(state))
+    entry = {"psi": state.psi, "probability": state.probability, "amplitude": state.amplitude, "phase": state.phase,
+             "normalization": lambda arg: state.normalization(space)}
+    for name, fn in entry.items():
+        for arg_name, arg in (("space", space), ("sub-batch", sub), ("1-D", v1)):
+            first = fn(arg)
+            keep = first.detach().clone()
+            second = fn(arg)
+            require(torch.equal(first, keep), "ownership:earlier-result-changed", f"the tensor returned by {name}({arg_name}) changed when {name} was called again")
+            second.add_(1.5)
+            if first.data_ptr() == second.data_ptr() and first.numel() > 0:
+                require(False, "ownership:results-share-memory", f"two calls of {name}({arg_name}) returned tensors sharing memory")
+            third = fn(arg)
+            require(torch.equal(third, keep), "ownership:result-edit-leaks", f"editing the tensor returned by {name}({arg_name}) in place changed what {name} returns afterwards")
     return {}
 
 
